@@ -517,7 +517,58 @@ class _Rename(ast.NodeTransformer):
         return self.generic_visit(n)
 
 
+_ACCESSORS = [False]
+_BUILTIN_ATTRS = {n for t in (dict, list, set, frozenset, tuple, str, bytes, int, float, object) for n in dir(t)}
+
+
+class accessors:
+    """`with S.accessors():` - while active, a call `x.m(...)` on a local/parameter `x` of a PUBLIC method `m` reads as
+    the body of `m` with `self := x`, when the callee is closed-world unique (one definition of that name over all
+    registered modules, in a class, not the name of a builtin container/str method) and a *pure accessor*: its body
+    only branches, binds locals and returns expressions without any call, store, yield or await (so what it returns
+    is a function of the fields of x that are read in it; nothing is executed, the body is spliced in like a private helper)."""
+
+    def __enter__(self) -> None:
+        self.old = _ACCESSORS[0]
+        _ACCESSORS[0] = True
+
+    def __exit__(self, *a: T.Any) -> None:
+        _ACCESSORS[0] = self.old
+
+
+def _is_foreign_receiver(call: ast.Call) -> bool:
+    f = call.func
+    return isinstance(f, ast.Attribute) and isinstance(f.value, ast.Name) and f.value.id != 'self' and f.value.id not in _CLASSES
+
+
+def _find_accessor(call: ast.Call) -> T.Optional[T.Tuple[str, T.Any]]:
+    if not _ACCESSORS[0] or not _is_foreign_receiver(call):
+        return None
+    name = call.func.attr  # type: ignore[attr-defined]
+    if name.startswith('_') or name in _BUILTIN_ATTRS:
+        return None
+    cands = _FUNCS.get(name, [])
+    if len(cands) != 1 or '.' not in cands[0][0]:
+        return None
+    q, fn, _m = cands[0]
+    if fn.decorator_list:
+        return None
+    for st in fn.body:
+        for n in ast.walk(st):
+            if isinstance(n, (ast.Call, ast.Yield, ast.YieldFrom, ast.Await, ast.Lambda, ast.NamedExpr, ast.For, ast.While, ast.Try, ast.With,
+                              ast.Global, ast.Nonlocal, ast.Delete, ast.AugAssign, ast.FunctionDef, ast.ClassDef)):
+                return None
+            if isinstance(n, (ast.Attribute, ast.Subscript)) and isinstance(n.ctx, (ast.Store, ast.Del)):
+                return None
+            if isinstance(n, ast.Name) and n.id == 'self' and not isinstance(n.ctx, ast.Load):
+                return None
+    return q, fn
+
+
 def _find_helper(call: ast.Call, owner: T.Tuple[T.Any, str]) -> T.Optional[T.Tuple[str, T.Any]]:
+    acc = _find_accessor(call)
+    if acc is not None:
+        return acc
     f = call.func
     mod, oq = owner
     cls = oq.rsplit('.', 1)[0] if '.' in oq else None
@@ -555,6 +606,7 @@ def _inline_call(call: ast.Call, owner: T.Tuple[T.Any, str], stack: T.Tuple[str,
         return None
     params = [p.arg for p in a.posonlyargs + a.args]
     args = list(call.args)
+    foreign = _is_foreign_receiver(call)
     if '.' in q and 'staticmethod' not in decos:
         if not params or params[0] != 'self':
             return None
@@ -591,12 +643,17 @@ def _inline_call(call: ast.Call, owner: T.Tuple[T.Any, str], stack: T.Tuple[str,
             elif isinstance(n, ast.ExceptHandler) and n.name:
                 local.add(n.name)
     local.discard('self')
+    if foreign:
+        # an accessor of another object: its `self` is the receiver of the call
+        local.add('self')
     ren = _Rename(local, suffix)
     body = [ren.visit(x) for x in body]
     flat = _tail(body, on_return)
     if flat is None:
         return None
     binds: T.List[ast.stmt] = [ast.Assign(targets=[ast.Name(id=n + suffix, ctx=ast.Store())], value=bound[n], type_comment=None) for n in allnames]
+    if foreign:
+        binds.insert(0, ast.Assign(targets=[ast.Name(id='self' + suffix, ctx=ast.Store())], value=copy.deepcopy(call.func.value), type_comment=None))  # type: ignore[attr-defined]
     out = binds + flat
     for x in out:
         ast.copy_location(x, call)
